@@ -260,27 +260,11 @@ theorem tiersSetItem_ok {T : Tiers} {i : Int} {v : TierVal}
   · cases hr
   · rename_i T' h1; cases hr; exact ⟨T', tiersSetItemT_ok hT h1, rfl⟩
 
-/-- whatever `Trackers.reverse()` does, every object it hands to the callback has good tiers -/
-theorem tiersReverseLoop_ok {n : Nat} {is : List Nat} {T : Tiers} {last last' : Option Tiers}
-    {out : Outcome} (hT : TiersOK isUrl T) (hl : ∀ l, last = some l → TiersOK isUrl l)
-    (hr : tiersReverseLoop isUrl n is T last = (last', out)) :
-    ∀ l, last' = some l → TiersOK isUrl l := by
-  induction is generalizing T last with
-  | nil => unfold tiersReverseLoop at hr; cases hr; exact hl
-  | cons i is ih =>
-    unfold tiersReverseLoop at hr
-    split at hr
-    · rename_i x y hx hy
-      split at hr
-      · cases hr; exact hl
-      · rename_i T1 h1
-        have hT1 := tiersSetItemT_ok hT h1
-        split at hr
-        · cases hr; intro l hl'; cases hl'; exact hT1
-        · rename_i T2 h2
-          have hT2 := tiersSetItemT_ok hT1 h2
-          exact ih hT2 (fun l hl' => by cases hl'; exact hT2) hr
-    · cases hr; exact hl
+/-- reversing the order of good tiers gives good tiers -/
+theorem TiersOK_reverse {T : Tiers} (hT : TiersOK isUrl T) : TiersOK isUrl T.reverse := by
+  have hp : T.reverse.flatten.Perm T.flatten := (List.reverse_perm T).flatten
+  exact ⟨fun t ht => hT.1 t (List.mem_reverse.1 ht), hp.nodup_iff.2 hT.2.1,
+    fun u hu => hT.2.2 u (hp.subset hu)⟩
 
 /-- assigning a tier value whose URLs are all stored already (in any tier) assigns nothing:
     every URL is filtered as known, the new tier is empty, `len(tier) > 0` fails -/
@@ -300,24 +284,6 @@ theorem tiersSetItemT_stored {T : Tiers} {i : Int} {x : Tier} (hT : TiersOK isUr
     ⟨hT.2.2 c (List.mem_flatten.2 ⟨x, hx, hc⟩), List.mem_flatten.2 ⟨x, hx, hc⟩⟩
   simp [tiersSetItemT, mkURLs, urlsReplace, coerceAll_id (fun c hc => (hg c hc).1),
     addAll_all_known hg]
-
-/-- `Trackers.reverse()` changes NOTHING on good tiers: each half of each swap assigns a tier whose
-    URLs are all stored already; it runs the callback with the unchanged object (unless there are
-    fewer than two tiers) and never raises -/
-theorem tiersReverseLoop_noop {n : Nat} {is : List Nat} {T : Tiers} {last : Option Tiers}
-    (hT : TiersOK isUrl T) (hn : n = T.length) (hi : ∀ i ∈ is, i < n) :
-    tiersReverseLoop isUrl n is T last = (if is = [] then last else some T, .ok) := by
-  induction is generalizing last with
-  | nil => simp [tiersReverseLoop]
-  | cons i is ih =>
-    have hlt : i < T.length := hn ▸ hi i (by simp)
-    have h1 : n - i - 1 < T.length := by omega
-    unfold tiersReverseLoop
-    rw [List.getElem?_eq_getElem h1, List.getElem?_eq_getElem hlt]
-    simp only [tiersSetItemT_stored hT (List.getElem_mem h1), tiersSetItemT_stored hT (List.getElem_mem hlt)]
-    rw [ih (fun j hj => hi j (by simp [hj]))]
-    simp only [reduceCtorEq, if_false]
-    split <;> rfl
 
 /-- every operation on a tier (index and slice assignment included; an assignment that empties the
     tier removes it) hands good tiers to the callback -/
@@ -440,15 +406,7 @@ theorem tiersOp_ok {T : Tiers} {op : TOp} {w : Written}
   | setItem i v => simp only [tiersOp] at hr; exact tiersSetItem_ok hT hr
   | reverse =>
     simp only [tiersOp] at hr
-    rcases he : tiersReverseLoop isUrl T.length (List.range (T.length / 2)) T none with ⟨last, out'⟩
-    rw [he] at hr
-    have := tiersReverseLoop_ok hT (fun l hl => by cases hl) he
-    cases hl : last with
-    | none => rw [hl] at hr; simp at hr
-    | some l =>
-      rw [hl] at hr
-      simp only [Option.map_some, Prod.mk.injEq, Option.some.injEq] at hr
-      exact ⟨l, this l hl, hr.1.symm⟩
+    cases hr; exact ⟨T.reverse, TiersOK_reverse hT, rfl⟩
   | setSlice a b vs => simp [TOp.clean] at hop
   | tier ti op =>
     simp only [tiersOp] at hr
